@@ -227,6 +227,40 @@ fn timing_part(out: &mut Out, thorough: bool, rng: &mut Rng) {
             }
         }
     }
+    // (a') the timeout limits the EXECUTION of the check: a builder configured with `.timeout(T)` and spawned only after a
+    //      pause longer than T must still run its check in full (finite model that takes a few ms; results as without timeout)
+    let mut cfgs = vec![];
+    for strat in ["bfs", "dfs", "ondemand", "sim"] {
+        for &t in &[1usize, 3] {
+            for (timeout, delay) in [(None, 0u64), (Some(400u64), 900u64)] {
+                let mut c = RunCfg::new(layered(12, 300, 2, 77, vec![pr(0, 0, 0), pr(2, 2_000, 8)]), strat, t);
+                c.timeout_ms = timeout;
+                c.spawn_delay_ms = delay;
+                c.record = false;
+                c.watchdog_ms = 30_000;
+                if strat == "sim" { c.target_state_count = Some(3_000); c.chooser = "lcg".into(); }
+                cfgs.push(c);
+            }
+        }
+    }
+    let res = run_all(&cfgs, wd, 8);
+    for i in (0..cfgs.len()).step_by(2) {
+        let (c0, c1) = (&cfgs[i], &cfgs[i + 1]);
+        out.stat(&format!("timeout-set-long-before-spawn-{}-threads{}", c0.strategy, c0.threads));
+        let (a, b) = (done(out, "no timeout", c0, &res[i]), done(out, "timeout configured 900 ms before spawn", c1, &res[i + 1]));
+        if let (Some(a), Some(b)) = (a, b) {
+            let sim = c0.strategy == "sim";
+            // exhaustive strategies: identical counts and discoveries; simulation: the target must be reached either way
+            let same = if sim { b.state_count >= 3_000 && a.state_count >= 3_000 } else { a.unique == b.unique && a.disc == b.disc };
+            if !same && b.wall_ms < 400 {
+                out.v("timeout-counted-from-builder-configuration", &format!(
+                    "a 400 ms timeout configured 900 ms before spawn cut the check short after {} ms: unique {} vs {} without timeout, state_count {} vs {}, disc {:?} vs {:?}: {}",
+                    b.wall_ms, b.unique, a.unique, b.state_count, a.state_count, b.disc, a.disc, describe(c1)));
+            } else if !same {
+                out.stat("timeout-set-long-before-spawn-run-slower-than-the-timeout");
+            }
+        }
+    }
     // (b) an unexpired timeout (1000 s) changes neither results nor progress: ~3*10^5 states
     let mut cfgs = vec![];
     let seeds: Vec<u64> = (0..if thorough { 2 } else { 1 }).map(|_| 1 + rng.below(100000) as u64).collect();
@@ -457,6 +491,85 @@ fn actor_replay_part(out: &mut Out, thorough: bool, rng: &mut Rng) {
     }
 }
 
+/// "An unexpired timeout changes neither results nor PROGRESS" at the level of the job market (src/job_market.rs through
+/// the `stateright::verif::Market` facade): on a market created with a deadline one hour away, `n` workers wait in `pop()`;
+/// another thread then publishes work — `push` of one batch per waiting worker, or one `split_and_push` of a deque with
+/// enough jobs. Every waiting worker must come back with a non-empty batch within 3 s, exactly as on a market without a
+/// timeout (the timeout thread must not take part in the hand-over). Harness-side oracle (V line).
+fn market_timeout_neutral_part(out: &mut Out, thorough: bool, rng: &mut Rng) {
+    use stateright::verif::Market;
+    use std::collections::VecDeque;
+    use std::sync::mpsc::channel;
+    use std::time::{Duration, SystemTime};
+    let rounds = if thorough { 60 } else { 12 };
+    // the Park hook tells, without sleeping, that a worker has reached the condition variable
+    static PARKS: std::sync::atomic::AtomicUsize = std::sync::atomic::AtomicUsize::new(0);
+    stateright::verif::set_market_callback(Some(std::sync::Arc::new(|ev| {
+        if ev == stateright::verif::MarketEvent::Park { PARKS.fetch_add(1, std::sync::atomic::Ordering::SeqCst); }
+    })));
+    for round in 0..rounds {
+        PARKS.store(0, std::sync::atomic::Ordering::SeqCst);
+        let n_wait = 1 + rng.below(3);
+        let tc = n_wait + 1;
+        let with_timeout = round % 4 != 3; // every fourth round is the control without a timeout
+        let by_split = rng.chance(1, 2);
+        let close_at = if with_timeout { Some(SystemTime::now() + Duration::from_secs(3600)) } else { None };
+        let market: Market<u32> = Market::new(tc, close_at);
+        let (tx, rx) = channel();
+        let mut handles = vec![];
+        for w in 0..n_wait {
+            let mut m = market.clone();
+            let tx = tx.clone();
+            handles.push(std::thread::spawn(move || {
+                let jobs = m.pop();
+                let _ = tx.send((w, jobs.len()));
+                // keep the handle until told to stop, so that no Drop closes the market under the others
+                std::thread::sleep(Duration::from_millis(50));
+                std::mem::forget(m);
+            }));
+        }
+        // wait until every worker waits on the condition variable (Park hook; the callback runs under the market lock
+        // just before the wait, so once the producer gets the lock the worker is waiting)
+        let tw = std::time::Instant::now();
+        while PARKS.load(std::sync::atomic::Ordering::SeqCst) < n_wait && tw.elapsed() < Duration::from_secs(20) {
+            std::thread::sleep(Duration::from_millis(1));
+        }
+        if PARKS.load(std::sync::atomic::Ordering::SeqCst) < n_wait {
+            out.stat("market-handover-round-skipped-workers-did-not-start");
+            drop(market);
+            continue;
+        }
+        let mut producer = market.clone();
+        if by_split {
+            let mut dq: VecDeque<u32> = (0..(4 * (n_wait as u32 + 1))).collect();
+            producer.split_and_push(&mut dq);
+        } else {
+            for b in 0..n_wait {
+                producer.push((0..3).map(|i| (b * 10 + i) as u32).collect());
+            }
+        }
+        let mut got = 0;
+        let t0 = std::time::Instant::now();
+        while got < n_wait && t0.elapsed() < Duration::from_secs(3) {
+            if let Ok((_, len)) = rx.recv_timeout(Duration::from_millis(100)) {
+                if len > 0 { got += 1; }
+                else { out.v("market-timeout-neutral", &format!("round {}: a waiting worker came back EMPTY-handed from an open market (timeout configured: {})", round, with_timeout)); got += 1; }
+            }
+        }
+        out.stat(if with_timeout { "market-handover-with-unexpired-timeout" } else { "market-handover-without-timeout" });
+        if got < n_wait {
+            out.v("market-timeout-neutral", &format!(
+                "round {}: {} of {} workers waiting in pop() were not handed the published work within 3 s on a market with{} an unexpired timeout ({})",
+                round, n_wait - got, n_wait, if with_timeout { "" } else { "out" }, if by_split { "split_and_push" } else { "push" }));
+            // the stuck threads are leaked; closing the market lets them go
+        }
+        drop(producer);
+        drop(market);
+        for h in handles { if h.is_finished() { let _ = h.join(); } }
+    }
+    stateright::verif::set_market_callback(None);
+}
+
 fn main() {
     maybe_child();
     quiet_panics();
@@ -468,6 +581,7 @@ fn main() {
         matches_part(&mut out, th, &mut rng);
     }
     if arg_str("--only").map(|s| s != "matches").unwrap_or(true) {
+        market_timeout_neutral_part(&mut out, th, &mut rng);
         timing_part(&mut out, th, &mut rng);
         actor_replay_part(&mut out, th, &mut rng);
     }
